@@ -843,6 +843,18 @@ class History:
                                       'that does not exist'}[kind]),
                               cls=h.to_mof())
                     raise Abort()
+                if expect == 'either-then-delete':
+                    st2, r2 = self.call('DeleteClass[%s] %s' % (kind, h.name),
+                                        self.conn.DeleteClass, h.name)
+                    if st2 != 'ok':
+                        if st2 in ('cim', 'err'):
+                            self.viol('delete.after-%s.%s' % (
+                                kind, getattr(r2, 'status_code_name',
+                                              type(r2).__name__)),
+                                'DeleteClass of the accepted class %s '
+                                'failed: %s' % (h.name, r2), cls=h.to_mof())
+                        raise Abort()
+                    continue
                 self.f.classes.append(h)
                 self.f.invalidate()
                 self.live.add(len(self.f.classes) - 1)
